@@ -254,7 +254,7 @@ func scenarioStart(c *hlib.RunCtx) *hlib.Violation {
 		// directory became read-only for this user): nobody acquires it, everybody returns
 		errno := []syscall.Errno{syscall.EACCES, syscall.EROFS, syscall.EPERM}[t.Draw(3)]
 		s.FaultFn = func(c *simrt.FsCall) error {
-			if (c.Op == "remove" || c.Op == "create-excl" || c.Op == "writefile-open" || c.Op == "open-create") && strings.HasSuffix(c.Path, "upload.token") {
+			if c.Op == "remove" && strings.HasSuffix(c.Path, "upload.token") {
 				return errno
 			}
 			return nil
